@@ -279,6 +279,10 @@ func genWorldCase(profile []kindW, minN, maxN, minOps, maxOps int) func(*rapid.T
 }
 
 func genWorldCaseAB(profile []kindW, minN, maxN, minOps, maxOps, maxAB int) func(*rapid.T) WorldCase {
+	if os.Getenv("VERIF_TIER") == "thorough" {
+		// the thorough tier also explores histories twice as long
+		maxOps *= 2
+	}
 	return func(t *rapid.T) WorldCase {
 		return WorldCase{
 			N:   rapid.IntRange(minN, maxN).Draw(t, "n"),
